@@ -357,9 +357,15 @@ func (g *G) action(depth int) (of.Action, string) {
 	switch k {
 	case 0:
 		p, ml := uint32(g.r.Bits(32)), uint16(256)
+		if g.r.Intn(2) == 0 { // the reserved port numbers: OFPP_MAX .. OFPP_ANY
+			p = []uint32{0xffffff00, 0xfffffff8, 0xfffffff9, 0xfffffffa, 0xfffffffb, 0xfffffffc, 0xfffffffd, 0xfffffffe, 0xffffffff}[g.r.Intn(9)]
+		}
 		a := of.NewActionOutput(p)
 		if g.r.Bool() {
 			ml = uint16(g.r.Bits(16))
+			if g.r.Intn(3) == 0 || (p >= 0xfffffff8 && g.r.Bool()) { // around OFPCML_MAX (0xffe5) .. OFPCML_NO_BUFFER (0xffff)
+				ml = uint16(0xffe0 + g.r.Intn(32))
+			}
 			a.MaxLen = ml
 		}
 		g.use("act:output")
@@ -633,6 +639,13 @@ func (g *G) deepCT(depth int, outerFirst bool) (of.Action, string) {
 	if outerFirst {
 		for i := 0; i+1 < depth; i++ {
 			cts[i].AddAction(cts[i+1])
+		}
+		if g.r.Bool() { // sized and encoded once before the innermost action arrives
+			func() {
+				defer func() { recover() }()
+				cts[0].Len()
+				cts[0].MarshalBinary()
+			}()
 		}
 		cts[depth-1].AddAction(leaf)
 	} else {
